@@ -12,7 +12,7 @@ from .ref import model as M
 
 FAR_TODAY = dt.date(2033, 3, 3)  # what bumpver would take as "today" if it ignored --date / --pin-date
 
-DATEKINDS = ("pin", "same", "+1d", "next-month", "next-year", "-1d", "-400d")
+DATEKINDS = ("pin", "same", "+1d", "next-month", "next-year", "-1d", "-100d", "-400d")
 TAG_CHOICES = (None,) + M.TAGS
 
 
@@ -38,6 +38,8 @@ def event_date(kind, base: dt.date):
         return base - dt.timedelta(days=1)
     if kind == "-400d":
         return base - dt.timedelta(days=400)
+    if kind == "-100d":
+        return base - dt.timedelta(days=100)
     if kind == "next-month":
         return dt.date(base.year + (base.month == 12), base.month % 12 + 1, 1)
     if kind == "next-year":
